@@ -46,6 +46,9 @@ inductive Action
   | trans
   | keyCode (kc : KeyCode)
   | multipleKeyCodes (kcs : List KeyCode)
+  /-- `MultipleKeyCodes` whose slice is the layout's own repeat buffer (`rpt_multikey_key_buffer`):
+  never in a configuration, only ever the saved repeat action -/
+  | bufKeyCodes (kcs : List KeyCode)
   | multipleActions (acs : List Action)
   | layer (l : Nat)
   | defaultLayer (l : Nat)
